@@ -81,7 +81,10 @@ impl MacHarness {
         self.mac.get_rx_delay(if join { &Frame::Join } else { &Frame::Data }, if second { &Window::_2 } else { &Window::_1 })
     }
     pub fn set_datarate(&mut self, dr: region::DR) {
-        self.mac.configuration.data_rate = dr;
+        // same rule as Device::set_datarate of both front-ends
+        if self.mac.region.uplink_datarate_valid(dr) {
+            self.mac.configuration.data_rate = dr;
+        }
     }
     pub fn set_adr(&mut self, enabled: bool) {
         self.mac.configuration.adr_enabled = enabled;
